@@ -84,6 +84,22 @@ Definition sl_apply (c : sl_cred) (op : N * bool) : sl_cred :=
   match sl_set_entry c (fst op) (snd op) with Ok c' => c' | _ => c end.
 Definition sl_run (ops : list (N * bool)) (c : sl_cred) : sl_cred := fold_left sl_apply ops c.
 
+(* StatusList2021Credential::update with a closure that applies a batch of MutStatusList::set_entry calls to the working copy:
+   best effort (every refusal swallowed, the closure returns Ok, the working copy is committed) ... *)
+Definition sl_update_best_effort (c : sl_cred) (ops : list (N * bool)) : sl_cred := sl_run ops c.
+(* ... or all-or-nothing (the first refusal is propagated with `?`, update then discards the working copy) *)
+Fixpoint sl_try_all (ops : list (N * bool)) (c : sl_cred) : outcome sl_cred sl_err :=
+  match ops with
+  | [] => Ok c
+  | op :: r => match sl_set_entry c (fst op) (snd op) with
+               | Ok c' => sl_try_all r c'
+               | Err e => Err e
+               | Panic => Panic
+               end
+  end.
+Definition sl_update_all (c : sl_cred) (ops : list (N * bool)) : sl_cred * outcome unit sl_err :=
+  match sl_try_all ops c with Ok c' => (c', Ok tt) | Err e => (c, Err e) | Panic => (c, Panic) end.
+
 (* ---- validator ---- *)
 Inductive sl_check := ChkStrict | ChkSkipUnsupported | ChkSkipAll.
 Inductive sl_verdict := VOk | VRevoked | VSuspended | VInvalidStatus.
